@@ -62,18 +62,21 @@ static char *m_cstr(const mstr_t *m) { char *c = malloc(m->len + 1); memcpy(c, m
 #define CHK(name) CAT(str_, name)
 #define EXECNAME exec_str
 #define CLSNAME "!spif_str_t!"
+#define CLSTAB SPIF_STRCLASS_VAR(str)
 #include "strsim.inc"
 #undef T
 #undef FN
 #undef CHK
 #undef EXECNAME
 #undef CLSNAME
+#undef CLSTAB
 
 #define T spif_ustr_t
 #define FN(name) spif_ustr_##name
 #define CHK(name) CAT(ustr_, name)
 #define EXECNAME exec_ustr
 #define CLSNAME "!spif_ustr_t!"
+#define CLSTAB SPIF_STRCLASS_VAR(ustr)
 #include "strsim.inc"
 
 static void exec(const plan_t *p)
